@@ -55,7 +55,7 @@ func sweepC12(tier string) []Stratum {
 	return out
 }
 
-var corruptionNames = []string{"bitflip", "substitute", "burst", "truncate", "extend", "duplicate_segment", "fc_highbit"}
+var corruptionNames = []string{"bitflip", "substitute", "burst", "truncate", "extend", "duplicate_segment", "fc_highbit", "leading_bytes"}
 
 // strata: (client kind 0/1, fc index, exception?, corruption kind): first draws of genC12.
 func strataC12(tier string) [][]int32 {
@@ -160,6 +160,13 @@ func genC12(rc *RunCtx) (*C1, *c12Info, bool) {
 	case 6: // the function code's high bit flips: a data frame that now looks like an exception
 		info.Pos = 1
 		bad[1] ^= 0x80
+	case 7: // foreign bytes in front of the frame (line noise, or the late tail of an earlier reply)
+		info.Pos = 0
+		lead := t.Bytes(1 + t.Choose(3))
+		if t.Choose(3) == 0 {
+			lead = append([]byte(nil), good[max(0, n-len(lead)):]...) // the tail of a frame like this one
+		}
+		bad = append(lead, bad...)
 	}
 	sc.Reply = bad
 	sc.Chunks = genChunks(t, len(bad))
